@@ -213,7 +213,32 @@ def run(ck):
         pa = ",".join(hx(p) for p in pis) or "-"
         S3.cmd("proofbytes", f"g{j}", pb.hex(), pa)
         ids.append(S3.cmd("verify", key, f"g{j}", pa)); ck.count((key, pb, tuple(pis)), kind=desc.split(":")[0])
+    # ---- the V2 profile (selector-bound equation, legacy transcript): stored genuine V2 proofs (corpus/c03_v2.json,
+    # produced once by the unchanged tree with the legacy-proving feature) are the controls; each of their 15
+    # evaluations moved alone must be rejected under V2 -- V2 and V3 bind every evaluation the proof carries
+    corpus = json.load(open(os.path.join(VERIF, "corpus", "c03_v2.json")))
+    v2ids = []
+    for j, c in enumerate(corpus[:2 if quick else len(corpus)]):
+        S3.circuit(f"cv{j}", c["body"]); S3.cmd("compile", f"kv{j}", "pp", c["label_hex"], f"cv{j}")
+        pb = bytes.fromhex(c["proof_hex"]); pa = ",".join(c["pis"]) or "-"
+        variants = [(pb, "control: stored genuine V2 proof", False)]
+        for f in range(15):
+            e = (int.from_bytes(pb[528 + 32 * f:560 + 32 * f], "little") + 1 + rng.small(8)) % R
+            variants.append((pb[:528 + 32 * f] + e.to_bytes(32, "little") + pb[560 + 32 * f:], f"V2 profile: evaluation field {f} of a genuine V2 proof moved", True))
+        for k, (vb_, desc, mr) in enumerate(variants):
+            S3.cmd("proofbytes", f"v2_{j}_{k}", vb_.hex(), pa)
+            v2ids.append((S3.cmd("verify", f"kv{j}", f"v2_{j}_{k}", pa, "V2"), vb_, c, desc, mr)); ck.count(("v2", j, k), kind=desc.split(":")[0])
     r3 = protocol.run(S3, "c02_c", timeout=3000)
+    for cid, vb_, c, desc, mr in v2ids:
+        r = r3.get(cid, "MISSING"); ck.traces += 1
+        ctx = {"failing_input_found": True, "strategy": desc, "proof_hex": vb_.hex(), "pis": c["pis"], "circuit": c["body"], "label_hex": c["label_hex"], "version": "V2"}
+        if "PANIC" in r: ck.violation(f"verifier panicked under V2 ({desc}): {r[:100]}", ctx, key="panic-v2")
+        elif mr and r.startswith("OK"): ck.violation(f"verifier ACCEPTED under V2: {desc}", ctx, key="accepted-v2")
+        elif not mr and not r.startswith("OK"):
+            ctx["failing_input_found"] = False
+            ctx["correspondence"] = "verify_with_version(V2) vs the modelled V2/V3 equation (RefVerifier.verify_v23_gen): a genuine V2 proof is no longer accepted, so V2 does not run the selector-bound equation the soundness theorems are about"
+            ctx["theorems_no_longer_tied"] = THEOREMS
+            ck.violation(f"V2 profile no longer decides the modelled equation: stored genuine V2 proof rejected ({r[:60]})", ctx, key="v2-profile")
     for (key, pb, pis, desc, mr), cid in zip(forged, ids):
         r = r3.get(cid, "MISSING"); ck.traces += 1
         ctx = {"failing_input_found": True, "strategy": desc, "proof_hex": pb.hex(), "pis": [hx(p) for p in pis], "circuit": circs["s0" if key == "ks0" else "s1"]}
@@ -221,7 +246,7 @@ def run(ck):
         elif mr and r.startswith("OK"): ck.violation(f"verifier ACCEPTED a forged proof ({desc})", ctx, key="accepted:" + desc.split(":")[0])
         elif not mr and not r.startswith("OK"): raise BuildError("C02 control proof rejected: " + r[:100])
     return ck.finish(level="proof",
-        rule="prover strategies: Prover::prove forced past its CircuitUnsatisfied check (cfg-guarded switch) on assignments with one witness overridden, raw rows of every widget family with random wires, single widget rows cut from real range / logic / curve-addition / fixed-base gadgets with each of their 8 wire values perturbed in isolation (classified by which component of the widget they violate), public-input witness mismatch, copy constraint broken with all rows satisfied; field-wise splices of two valid proofs (same circuit, different randomness / different witness); degenerate proofs under several public-input vectors. Oracle: the extracted, proved row evaluator on (compiled selectors, prover's wires) plus the copy-class check decides whether the statement is false; false => the real verifier must reject, true => accept; forced proofs are also handed to the Gallina reference verifier",
+        rule="prover strategies: Prover::prove forced past its CircuitUnsatisfied check (cfg-guarded switch) on assignments with one witness overridden, raw rows of every widget family with random wires, single widget rows cut from real range / logic / curve-addition / fixed-base gadgets with each of their 8 wire values perturbed in isolation (classified by which component of the widget they violate), public-input witness mismatch, copy constraint broken with all rows satisfied; field-wise splices of two valid proofs (same circuit, different randomness / different witness); degenerate proofs under several public-input vectors; the V2 profile on stored genuine V2 proofs with each evaluation moved alone. Oracle: the extracted, proved row evaluator on (compiled selectors, prover's wires) plus the copy-class check decides whether the statement is false; false => the real verifier must reject, true => accept; forced proofs are also handed to the Gallina reference verifier",
         assumptions=["KZG binding / knowledge soundness (AGM) and Fiat-Shamir in the random-oracle model: not mechanised", "the explored strategies are those named in the property; an adversary with the SRS trapdoor is out of scope"],
         checker_cmd=proofgate.CHECKER_CMD, trusted_base=proofgate.TRUSTED)
 
